@@ -31,8 +31,8 @@ Section SeekRef.
         else
           let tgt : Z := match w with
                          | SeekStart => off
-                         | SeekCurrent => (off + Z.of_N (s_off k))%Z
-                         | SeekEnd => (off + Z.of_N (len content))%Z
+                         | SeekCurrent => wrap64 (off + Z.of_N (s_off k))      (* int64, as io.Seeker *)
+                         | SeekEnd => wrap64 (off + Z.of_N (len content))
                          end in
           if (tgt <? 0)%Z then (k, [], SErr)
           else
@@ -94,6 +94,7 @@ Section Spec.
   Variable subject_of : str -> option (option desc).
   Variable main : str.
   Variable user_mts : list str.
+  Variable limit : N.            (* effective MaxMetadataBytes *)
   Variable p : profile.
 
   Definition with_blobs st x := mkStore x (t_mans st) (t_tags st) (t_other st).
@@ -224,8 +225,8 @@ Section Spec.
   (* ---------- hypotheses of the refinement theorem ---------- *)
   (* What the caller must supply: valid digests; descriptors that are accurate for
      what the store holds under their digest; decodable manifests with a parsable media
-     type, whose subject (if any) is processed by the registry (Referrers API; the
-     client-side referrers tag schema is C14); and -- the known limitation of the client,
+     type, no larger than MaxMetadataBytes, whose subject (if any) is processed by the
+     registry (Referrers API; the client-side referrers tag schema is C14); and -- the known limitation of the client,
      finding head-tag-no-digest-header -- a registry that sends Docker-Content-Digest
      whenever a tag is resolved through a HEAD request. *)
   Definition sub_ok (c : str) : Prop :=
@@ -242,10 +243,13 @@ Section Spec.
     match o with
     | OPush d c =>
         valid_digest (d_dg d) = true /\
-        (is_manifest user_mts d = true -> sub_ok c /\ parse_mt (d_mt d) = Some (d_mt d))
-    | OFetch d | ODelete d =>
+        (is_manifest user_mts d = true -> sub_ok c /\ parse_mt (d_mt d) = Some (d_mt d) /\ len c <= limit)
+    | OFetch d =>
         valid_digest (d_dg d) = true /\
         (if is_manifest user_mts d then acc_man st d else acc_blob (t_blobs st) d)
+    | ODelete d =>
+        valid_digest (d_dg d) = true /\
+        (if is_manifest user_mts d then acc_man st d /\ d_sz d <= limit else acc_blob (t_blobs st) d)
     | OExists d => valid_digest (d_dg d) = true
     | OResolve s =>
         forall rf, resolve_ref main s = Some rf -> p_dighdr p = true \/ valid_digest rf = true
@@ -255,7 +259,7 @@ Section Spec.
     | OTag d _ => valid_digest (d_dg d) = true /\ acc_man st d
     | OPushRef d c _ =>
         valid_digest (d_dg d) = true /\ matches_desc d c = true /\
-        sub_ok c /\ parse_mt (d_mt d) = Some (d_mt d)
+        sub_ok c /\ parse_mt (d_mt d) = Some (d_mt d) /\ len c <= limit
     | OMount d (Some c) =>
         valid_digest (d_dg d) = true /\ matches_desc d c = true /\
         (forall c', lookup (d_dg d) (t_other st) = Some c' -> c' = c)
